@@ -12,6 +12,9 @@ mod derive;
 mod hostloop;
 mod topic;
 mod c12;
+mod eon;
+mod birth;
+mod cmd;
 
 use common::*;
 use std::path::{Path, PathBuf};
@@ -35,6 +38,9 @@ fn replay_file(comp: &str, path: &Path, out: &mut Out) {
         "hostloop" => hostloop::replay(&desc, &ops, out),
         "topic" => topic::replay(&desc, &ops, out),
         "metric" => c12::replay(&desc, &ops, out),
+        "eon" => eon::replay(&desc, &ops, out),
+        "birth" => birth::replay(&desc, &ops, out),
+        "cmd" => cmd::replay(&desc, &ops, out),
         _ => panic!("unknown component"),
     }
 }
@@ -56,6 +62,8 @@ fn main() {
             Some("HostLoopTable") => hostloop::table_hostloop(),
             Some("TopicTable") => topic::table_topic(),
             Some("MetricTable") => c12::table_metric(),
+            Some("BirthTable") => birth::table_birth(),
+            Some("CmdTable") => cmd::table_cmd(),
             _ => {
                 eprintln!("unknown table");
                 std::process::exit(2)
@@ -135,6 +143,9 @@ fn main() {
         "hostloop" => hostloop::run(&args, &mut out),
         "topic" => topic::run(&args, &mut out),
         "metric" => c12::run(&args, &mut out),
+        "eon" => eon::run(&args, &mut out),
+        "birth" => birth::run(&args, &mut out),
+        "cmd" => cmd::run(&args, &mut out),
         _ => {
             eprintln!("unknown component {}", comp);
             std::process::exit(2)
